@@ -54,7 +54,7 @@ func phaseSpecs(fc bool) []*RPCSpec {
 
 var c04Causes = map[string][]string{
 	"forward": {"close", "ctx-cancel", "ctx-deadline", "break", "reset", "fail-send-c2s", "fail-send-s2c"},
-	"reverse": {"close", "ctx-cancel", "ctx-deadline", "break", "reset", "stop", "fail-send-c2s", "fail-send-s2c"},
+	"reverse": {"close", "ctx-cancel", "ctx-deadline", "break", "reset", "stop", "gracefulstop-then-stop", "fail-send-c2s", "fail-send-s2c"},
 }
 
 func init() {
@@ -270,6 +270,12 @@ func famTermination(w *World, c *Case, rng *rand.Rand) {
 	case "stop":
 		stopDone = make(chan struct{})
 		go func() { w.RevSrvs[0].Stop(); close(stopDone) }()
+	case "gracefulstop-then-stop":
+		// a graceful stop is pending (RPCs are in flight); then Stop, as the documentation recommends after a deadline
+		go w.RevSrvs[0].GracefulStop()
+		w.Wait()
+		stopDone = make(chan struct{})
+		go func() { w.RevSrvs[0].Stop(); close(stopDone) }()
 	case "fail-send-c2s":
 		link.FailSendAt(C2S, 1)
 	case "fail-send-s2c":
@@ -299,7 +305,7 @@ func famTermination(w *World, c *Case, rng *rand.Rand) {
 		w.Violate("C04", "done-not-closed:"+cause, "cause %s at frame %d: the channel's Done() is not closed an hour later", cause, k)
 	}
 	err1 := tc.Err()
-	clean := cause == "close" || cause == "stop"
+	clean := cause == "close" || cause == "stop" || cause == "gracefulstop-then-stop"
 	if clean && err1 != nil {
 		w.Violate("C04", "err-non-nil-after-clean-end:"+cause, "cause %s at frame %d (%s): Err() = %v after a clean end", cause, k, w.Cfg.Dir, err1)
 	}
